@@ -513,6 +513,8 @@ val firstn : nat -> 'a1 list -> 'a1 list
 
 val skipn : nat -> 'a1 list -> 'a1 list
 
+val seq : nat -> nat -> nat list
+
 val eqb0 : byte -> byte -> bool
 
 val to_N0 : byte -> n
@@ -1042,15 +1044,20 @@ val skipnN : n -> bytes -> bytes
 
 val lenN : bytes -> n
 
-type src = { bbuf : bytes; lo : bytes; segs0 : bytes list; sfuel : nat }
+type src = { bbuf : bytes; lo : bytes; segs0 : bytes list; sfuel : nat;
+             stake : n option }
 
 val mk_src : bytes -> bytes list -> src
+
+val mk_src_take : bytes -> bytes list -> n -> src
 
 val src_rest : src -> bytes
 
 val stream_read : n -> bytes list -> bytes * bytes list
 
 val inner_read : n -> bytes -> bytes list -> (bytes * bytes) * bytes list
+
+val take_read : n -> src -> ((bytes * bytes) * bytes list) * n option
 
 val fill_buf : src -> src
 
@@ -1187,3 +1194,129 @@ val dec_chunks : nat -> bytes -> bytes -> dres
 val spec_decode : bytes -> dres
 
 val spec_fixed : n -> bytes -> dres
+
+type behaviour =
+| BAll
+| BReadK of n
+| BNone of n
+| BFirst
+| BHold
+| BErr
+| BErrAfter
+| BClose
+| BReader of n
+
+type hook_action =
+| HProceed
+| HAnswer
+| HAnswerClose
+
+type app0 = { behaviour_of : (request -> behaviour);
+              hook_of : (request -> hook_action);
+              describe : (request -> bytes -> bytes) }
+
+type response_ev = { rs_status : n; rs_body : bytes; rs_close : bool }
+
+type rr =
+| RParsed of bytes * request
+| RTooLarge
+| RInvalid
+| REof
+
+val read_request : nat -> nat -> bytes -> bytes list -> rr * bytes list
+
+val te_tokens : headers -> bytes list
+
+val te_final_chunked : headers -> bool
+
+val te_present : headers -> bool
+
+val from_request : bytes -> bytes list -> headers -> body
+
+val read_to_end : nat -> body -> bytes -> (bytes, ioerr) sum * body
+
+val read_k : nat -> n -> body -> bytes -> (bytes, ioerr) sum * body
+
+val body_fuel : body -> nat
+
+val after_drop : body -> bytes list
+
+val reader_payload : n -> bytes
+
+val run_handler :
+  app0 -> request -> body -> (response_ev list * bool) * bytes list
+
+type one = { o_resps : response_ev list; o_keep : bool; o_ok : bool;
+             o_rest : bytes list; o_hooked : bool; o_eof : bool }
+
+val close_resp : n -> response_ev
+
+val handle_one_request : app0 -> nat -> bool -> bytes list -> one
+
+type conn_result = { c_resps : response_ev list; c_ok : bool;
+                     c_rest : bytes list; c_requests : nat; c_waiting : 
+                     bool }
+
+val handle_connection :
+  nat -> app0 -> nat -> bool -> bytes list -> response_ev list -> nat ->
+  conn_result
+
+val serve_conn : app0 -> nat -> bytes list -> conn_result
+
+type framing =
+| FChunked
+| FFixed of n
+| FEmpty
+| FReject
+
+val values_of : bytes -> (bytes * bytes) list -> bytes list
+
+val te_codings : (bytes * bytes) list -> bytes list
+
+val last_is_chunked : bytes list -> bool
+
+val cl_decision : bytes list -> framing
+
+val rfc_framing : (bytes * bytes) list -> framing
+
+val raw_fields : bytes -> (bytes * bytes) list
+
+type body_view =
+| BodyOk of bytes * bytes
+| BodyBad
+| BodyUnspec
+
+val view_body : framing -> bytes -> body_view
+
+val ev : n -> bytes -> bool -> response_ev
+
+val firstn_bytes : n -> bytes -> bytes
+
+val spec_one :
+  app0 -> request -> (bytes * bytes) list -> bytes -> (response_ev
+  list * bool) * bytes
+
+type ending =
+| EClosed
+| EWaiting
+| EUnspec
+
+val body_unspecified : request -> (bytes * bytes) list -> bytes -> bool
+
+val spec_conn_f :
+  nat -> app0 -> nat -> bytes -> response_ev list -> response_ev list * ending
+
+val spec_conn : app0 -> nat -> bytes -> response_ev list * ending
+
+type reqinfo = { ri_end : nat; ri_chunked : bool; ri_readable : bool;
+                 ri_reads_body : bool }
+
+val reads_body : app0 -> request -> bool
+
+val req_infos : nat -> app0 -> nat -> bytes -> nat -> reqinfo list
+
+val boundaries : bytes list -> nat -> nat list
+
+val known_F20c : app0 -> nat -> bytes list -> bool
+
+val known_F21 : app0 -> nat -> bytes list -> bool
